@@ -3,8 +3,8 @@
 Ownership discipline decided by the alias/mutation analysis (aurelsa.alias) over core.py,
 coresymbolic.py, time.py, reading.py, maths.py, finitedifference.py, numerical.py and
 utils/memory.py: no in-place sink may be reached by a value that can share storage with a
-cached quantity, an attribute of the FiniteDifference object, a module-level table, or a
-caller-owned argument of a public entry point.  Deliberate writers (the cache protocol, helpers
+cached quantity, an attribute of the FiniteDifference object, or a caller-owned argument of a
+public entry point (module-level tables are left to the module-state rules of C14/C18).  Deliberate writers (the cache protocol, helpers
 documented to fill their own argument) are an explicit table; the latter are judged at their
 call sites through interprocedural summaries."""
 from __future__ import annotations
@@ -78,6 +78,12 @@ def written_root(node):
 
 def shared(owner):
     return owner.startswith(("CACHE", "FD", "KW:", "GLOBAL:", "PARAM:", "SELF:"))
+
+
+def not_global(o):
+    """C02 itself is about user-supplied and handed-out objects; writes to module-level tables
+    are the business of the module-state rules of C14 and C18, which pass no filter."""
+    return not o.startswith("GLOBAL:")
 
 
 def analyse(rep, owner_filter=None, rule="no-inplace-on-shared", rels=None, only=None):
@@ -190,10 +196,10 @@ def run(rep):
         "one per allowed writer of the frozen table, and a violation for any other sink "
         "(augmented assignment, subscript/attribute store, del, mutating method, numpy writer, "
         "out= / overwrite_input=) whose target may share storage with a cached value, an fd "
-        "attribute, a module table or a caller-owned argument.")
+        "attribute or a caller-owned argument.")
     rep.assume("numpy/scipy/h5py/sympy internals do not mutate arguments passed without "
                "out=/overwrite_input; user-supplied callables (custom variables, estimators) "
                "are trusted not to mutate what they are given")
     positive_control(rep)
-    analyse(rep)
+    analyse(rep, owner_filter=not_global)
     rep.floor("no-inplace-on-shared", 150)
